@@ -7,7 +7,17 @@ Global Arguments N.max : simpl never.
 Lemma br_constants : BR_MAX = 1000000000 /\ G_CBR_PARAMS_SIZE = 6 * 4 /\ BR_MAX < two32.
 Proof. repeat split; reflexivity. Qed.
 
-Ltac unf := unfold sat_sub, sat_add, sat_mul, checked_add, BR_MAX, G_UNIT_SHARE32_MAX, two32, two64 in *.
+(* never unfold sat_add / sat_mul / checked_add inside hypotheses (Qed then spends minutes in conversion): use these *)
+Lemma sat_add_small m a b : a + b < m -> sat_add m a b = a + b.
+Proof. intros H. unfold sat_add. apply N.ltb_lt in H. rewrite H. reflexivity. Qed.
+Lemma sat_mul_small m a b : a * b < m -> sat_mul m a b = a * b.
+Proof. intros H. unfold sat_mul. apply N.ltb_lt in H. rewrite H. reflexivity. Qed.
+Lemma checked_add_small m a b : a + b < m -> checked_add m a b = Some (a + b).
+Proof. intros H. unfold checked_add. apply N.ltb_lt in H. rewrite H. reflexivity. Qed.
+Lemma epoch_succ_pos e : epoch_succ e <> 0.
+Proof. unfold epoch_succ, sat_add, two64. destruct (e + 1 <? _); lia. Qed.
+
+Ltac unf := unfold sat_sub, BR_MAX, G_UNIT_SHARE32_MAX, two32, two64 in *.
 Ltac pcbn := cbn [limit to_inc to_lim num den next] in *.
 
 (* ------------------------------------------------------------------ well-formed parameter blocks *)
@@ -33,17 +43,17 @@ Proof.
   destruct (nl <? next p) eqn:E1; [discriminate|].
   destruct (ni =? 0) eqn:E2; [discriminate|].
   destruct (nlim <? ni) eqn:E3; [discriminate|]. inversion H; subst; clear H.
-  assert (sat_add two32 (sat_sub nlim ni) 1 = nlim - ni + 1) as Hden.
-  { unf. destruct (nlim - ni + 1 <? 4294967296) eqn:E; lia. }
-  constructor; pcbn; rewrite ?Hden; unf; try lia.
+  assert (sat_add two32 (sat_sub nlim ni) 1 = nlim - ni + 1) as Hden by (apply sat_add_small; unf; lia).
+  constructor; pcbn; rewrite ?Hden; clear Hden; unf; try lia.
   unfold pending; pcbn. assert (N.max ni 1 = ni) as -> by lia.
-  pose proof (div_budget (nlim - ni) (nl - next p)). lia.
+  pose proof (div_budget (nlim - ni) (nl - next p)) as Hq.
+  set (q := (nl - next p) / (nlim - ni + 1)) in *. nia.
 Qed.
 
 Lemma new_wf i l ni nlim p : l <= BR_MAX -> ni < two32 -> nlim < two32 -> br_new i l ni nlim = Some p -> wf p.
 Proof.
   unfold br_new. intros Hl Hi Hlm H. destruct (i =? 0) eqn:E; [discriminate|].
-  eapply update_wf; eauto. pcbn. lia.
+  eapply update_wf; [|exact Hl|exact Hi|exact Hlm|exact H]. pcbn. lia.
 Qed.
 
 Lemma update_next p nl ni nlim p' : br_update p nl ni nlim = Some p' ->
@@ -97,10 +107,9 @@ Proof.
     constructor; pcbn; try (unf; lia).
     ssub. replace (to_lim p - 1 - N.max (to_inc p - 1) 1) with 0 by lia. lia. }
   destruct (sat_sub (to_inc p) 1 =? 0) eqn:E2.
-  - assert (next p * den p < 18446744073709551615) as Hprod by (unf; nia).
-    assert (sat_mul two64 (next p) (den p) = next p * den p) as -> by (unf; destruct (_ <? _) eqn:?; lia).
-    assert (checked_add two64 (next p * den p) (num p) = Some (next p * den p + num p)) as ->.
-    { unf. destruct (_ <? _) eqn:?; [reflexivity|nia]. }
+  - assert (next p * den p < 4611686018427387904) as Hprod by (unf; nia).
+    rewrite (sat_mul_small two64 (next p) (den p)) by (unf; lia).
+    rewrite (checked_add_small two64 (next p * den p) (num p)) by (unf; lia).
     destruct (den p =? 0) eqn:E4; [lia|].
     rewrite quot_add by lia.
     assert (pending p >= 1) as Hp1 by (clear Hb; ssub; lia).
@@ -220,7 +229,7 @@ Proof.
     + destruct (compute_spec p W) as (p' & Hc & Hle & Hlim & W'). rewrite Hc. cbn [fst snd rates].
       split; [destruct Hlo; lia|].
       apply IH; [left; exact W'|exact Hops|].
-      right. split; [unfold epoch_succ; unf; destruct (_ <? _); lia|exact Hle].
+      right. split; [apply epoch_succ_pos|exact Hle].
     + rewrite (compute_unset p Hz). cbn [fst snd rates]. apply IH; auto. right; exact Hz.
   - destruct (configure_burn_rate e p l ti tl i) as [p'|] eqn:Hc; cbn [fst snd rates].
     + destruct (configure_wf e p l ti tl i p' Hp Ho Hc) as [[W' Hn]|(Hz' & Hz & Hi)].
@@ -337,7 +346,9 @@ Lemma ramp_bounds c : cfg_ok c -> c_r0 c <= ramp c <= c_lim c.
 Proof.
   intros H. pose proof H as (H0 & H1 & H2 & H3 & H4 & H5).
   destruct (ramp_cases c H) as [[? ->]|[[? ->]|[? ->]]]; try lia.
-  pose proof (ramp_budget c (c_k c - c_ti c + 1) H). lia.
+  assert (c_k c - c_ti c + 1 <= c_tl c - c_ti c) as Ha by lia.
+  pose proof (ramp_budget c (c_k c - c_ti c + 1) H Ha). split; [|assumption].
+  apply N.le_add_r.
 Qed.
 
 Lemma ramp_mono c : cfg_ok c -> ramp c <= ramp (bump c).
@@ -347,8 +358,10 @@ Proof.
   destruct (ramp_cases c H) as [[Hk ->]|[[Hk ->]|[Hk ->]]].
   - pose proof (ramp_bounds (bump c) Hb). cbn [bump c_r0] in *. lia.
   - destruct (ramp_cases (bump c) Hb) as [[Hk' ->]|[[Hk' ->]|[Hk' ->]]]; cbn [bump c_r0 c_lim c_ti c_tl c_k] in *; try lia.
-    + unfold c_step; cbn [c_r0 c_lim c_ti c_tl]. fold (c_step c). nia.
-    + pose proof (ramp_budget c (c_k c - c_ti c + 1) H). lia.
+    + unfold c_step; cbn [c_r0 c_lim c_ti c_tl]. fold (c_step c).
+      apply N.add_le_mono_l, N.mul_le_mono_r. lia.
+    + assert (c_k c - c_ti c + 1 <= c_tl c - c_ti c) as Ha by lia.
+      pose proof (ramp_budget c (c_k c - c_ti c + 1) H Ha). lia.
   - destruct (ramp_cases (bump c) Hb) as [[Hk' ->]|[[Hk' ->]|[Hk' ->]]]; cbn [bump c_r0 c_lim c_ti c_tl c_k] in *; lia.
 Qed.
 
@@ -367,11 +380,10 @@ Proof.
   destruct (sat_sub (to_inc p) 1 =? 0) eqn:E2.
   - (* the ramp: k + 1 >= ti, k + 1 < tl *)
     assert (c_ti c <= c_k c + 1 /\ c_k c + 1 < c_tl c) as [Hk1 Hk2] by (unf; lia).
-    assert (ramp c * den p < 18446744073709551615) as Hprod by (unf; nia).
-    assert (sat_mul two64 (ramp c) (den p) = ramp c * den p) as -> by (unf; destruct (_ <? _) eqn:?; lia).
+    assert (ramp c * den p < 4611686018427387904) as Hprod by (unf; nia).
     assert (num p <= 1000000000) as Hnb by (unf; lia).
-    assert (checked_add two64 (ramp c * den p) (num p) = Some (ramp c * den p + num p)) as ->.
-    { unf. destruct (_ <? _) eqn:?; [reflexivity|nia]. }
+    rewrite (sat_mul_small two64 (ramp c) (den p)) by (unf; lia).
+    rewrite (checked_add_small two64 (ramp c * den p) (num p)) by (unf; lia).
     destruct (den p =? 0) eqn:E4; [lia|]. rewrite quot_add by lia.
     assert (num p / den p = c_step c) as Hst by (unfold c_step; rewrite Hnum, Hden; reflexivity).
     rewrite Hst.
@@ -405,7 +417,7 @@ Proof.
   unfold br_update in H. destruct (l <? next p); [discriminate|]. destruct (ti =? 0); [discriminate|].
   destruct (tl <? ti); [discriminate|]. inversion H; subst; clear H.
   unfold rel; pcbn. cbn [c_r0 c_lim c_ti c_tl c_k]. rewrite ramp_k0 by lia.
-  split; [exact Hok|]. unf. destruct (tl - ti + 1 <? 4294967296) eqn:E; lia.
+  split; [exact Hok|]. rewrite sat_add_small by (unf; lia). unf. lia.
 Qed.
 
 Lemma args_ok_spec f l ti tl : args_ok f l ti tl = true <-> (f <= l /\ l <= BR_MAX /\ ti <> 0 /\ ti <= tl).
